@@ -37,6 +37,7 @@ Definition eval_op (kind op : Z) (c p : list Q) : list Q :=
   | 2%Z, 1%Z => flatq [q_sample (quad_of c) (nthq p 0)]
   | 2%Z, 2%Z => [q_x (quad_of c) (nthq p 0); q_y (quad_of c) (nthq p 0)]
   | 2%Z, 3%Z => flatq [q_derivative (quad_of c) (nthq p 0)]
+  | 2%Z, 18%Z => flatq [q_derivative (quad_of c) (nthq p 0)]     (* dx, dy *)
   | 2%Z, 4%Z => fl_quad (q_flip (quad_of c))
   | 2%Z, 5%Z => fl_quad (q_split_range (quad_of c) (nthq p 0) (nthq p 1))
   | 2%Z, 6%Z => let '(a, b) := q_split (quad_of c) (nthq p 0) in fl_quad a ++ fl_quad b
@@ -61,6 +62,7 @@ Definition eval_op (kind op : Z) (c p : list Q) : list Q :=
   | 3%Z, 1%Z => flatq [c_sample (cubic_of c) (nthq p 0)]
   | 3%Z, 2%Z => [c_x (cubic_of c) (nthq p 0); c_y (cubic_of c) (nthq p 0)]
   | 3%Z, 3%Z => flatq [c_derivative (cubic_of c) (nthq p 0)]
+  | 3%Z, 18%Z => flatq [c_derivative (cubic_of c) (nthq p 0)]    (* dx, dy *)
   | 3%Z, 4%Z => fl_cubic (c_flip (cubic_of c))
   | 3%Z, 5%Z => fl_cubic (c_split_range (cubic_of c) (nthq p 0) (nthq p 1))
   | 3%Z, 6%Z => let '(a, b) := c_split (cubic_of c) (nthq p 0) in fl_cubic a ++ fl_cubic b
